@@ -162,6 +162,40 @@ pub fn run(out: &mut Out, seed: u64, tier: &str) {
         let m = match rng.below(3) { 0 => a, 1 => distort(&a, 0.1, &mut rng), _ => { let b = random_mol(&mut rng); union(&a, &moved(&b, &random_rotation(&mut rng), [rng.range(3.0, 9.0), 0.5, -0.5])) } };
         if m.n() <= 30 { check(out, &m, &mut stats); }
     }
+    // the scripting route to isolated atoms and broken fragments: a molecule is perceived at its real geometry, then its atoms are
+    // moved apart (all of them: isolated atoms; one half: broken fragments) and the connectivity regenerated — what a scan or a
+    // dissociation script does. Force-field construction, evaluation and optimisation must work on what is left
+    let mut n_scripted = 0usize;
+    let pool: Vec<Mol> = { let mut v = library(); for _ in 0..(if tier == "thorough" { 60 } else { 10 }) { v.push(random_mol(&mut rng)); } v };
+    for m in pool.iter() {
+        if m.n() < 2 || m.n() > 14 || m.min_distance() < 0.5 { continue; }
+        for variant in 0..2 {
+            let syms = m.symbols();
+            let refs: Vec<&str> = syms.iter().map(|x| x.as_str()).collect();
+            let mut w = Wrapper::from_atomic_symbols(&refs);
+            let apart: Vec<[f64; 3]> = if variant == 0 { m.xs.iter().map(|p| [p[0] * 5.0, p[1] * 5.0, p[2] * 5.0]).collect() }
+                                        else { m.xs.iter().enumerate().map(|(i, p)| if i >= m.n() / 2 { [p[0] + 9.0, p[1] - 4.0, p[2] + 2.0] } else { *p }).collect() };
+            let apart_m = Mol { name: format!("{}-apart{}", m.name, variant), zs: m.zs.clone(), xs: apart.clone() };
+            if apart_m.min_distance() < 0.5 { continue; }
+            let replay = format!("{}then set_coordinates to\n{}then generate_connectivty, build UFF / RB, evaluate, optimise", m.xyz_text(), apart_m.xyz_text());
+            let ok = catch(|| { w.set_coordinates(m.xs.iter().flat_map(|p| p.to_vec()).collect()); w.generate_connectivity();
+                                w.set_coordinates(apart.iter().flat_map(|p| p.to_vec()).collect()); w.generate_connectivity(); });
+            if ok.is_none() { out.oracle_fail("scripted route: set_coordinates / generate_connectivty aborted", &replay); continue; }
+            n_scripted += 1;
+            for kind in ["uff", "rb"] {
+                let mut ff = match FF::build(kind, w.molecule()) { Some(f) => f, None => { out.oracle_fail(&format!("scripted route, {}: force-field construction aborted on a molecule whose atoms were moved apart and whose connectivity was regenerated", kind), &replay); continue; } };
+                let x = w.molecule().coordinates.clone();
+                let (e, g) = (ff.energy(&x), ff.gradient(&x));
+                if !e.is_finite() || e.abs() > 1e6 * m.n() as f64 || !finite_all(&g) {
+                    // the same atoms constructed afresh: if they fail the same way it is the geometry's (attributed) problem, not the route's
+                    let fresh_bad = catch(|| apart_m.build()).and_then(|fm| FF::build(kind, &fm).map(|mut f2| { let e2 = f2.energy(&fm.coordinates); !e2.is_finite() || e2.abs() > 1e6 * m.n() as f64 })).unwrap_or(true);
+                    if !fresh_bad { out.oracle_fail(&format!("scripted route, {}: energy {} / gradient finite: {} although the same atoms constructed afresh are fine", kind, e, finite_all(&g)), &replay); }
+                }
+            }
+            if m.n() <= 8 && catch(|| w.optimise()).is_none() { out.oracle_fail("scripted route: optimise aborted", &replay); }
+        }
+    }
+    out.stat("scripted_dissociations", n_scripted);
     out.case("robust summary", "-");
     out.stat("inputs", stats.0);
     out.stat("force_fields_fully_exercised", stats.1);
